@@ -110,6 +110,16 @@ pub fn alphabet() -> Vec<Vec<Value>> {
             rule("dc", 14, "/Shop/@m", Some("/s2/@m"), Some(301), json!({"markers": [{"name": "m", "regex": "[a-z]+", "transformers": []}]}), vec![ex("/Shop/x", true, &["ru-dc"]), ex("/shop/x", true, &["ru-dc"])]),
             rule("dc", 14, "/Shop/@m", Some("/s3/@m"), Some(302), json!({"markers": [{"name": "m", "regex": "[a-z]+", "transformers": []}]}), vec![ex("/Shop/x", true, &["ru-dc"])]),
         ],
+        // a redirect decided by the BACKEND status (404) that leads back to its own URL: a loop that only exists in the backend phase
+        vec![
+            rule("kl", 15, "/k", Some("/k"), Some(302), json!({"source": {"response_status_codes": [404]}}), vec![json!({"url": "/k", "method": null, "headers": null, "ip_address": null, "response_status_code": 404, "must_match": true, "unit_ids_applied": ["ru-kl"]}), ex("/k", true, &[])]),
+            rule("kl", 15, "/k", Some("/k2"), Some(302), json!({"source": {"response_status_codes": [404]}}), vec![json!({"url": "/k", "method": null, "headers": null, "ip_address": null, "response_status_code": 404, "must_match": true, "unit_ids_applied": ["ru-kl"]})]),
+        ],
+        // a redirect whose Location comes from a header filter that spells the name in lower / upper case (no target), back to itself
+        vec![
+            rule("ll", 16, "/l", None, Some(302), json!({"header_filters": [{"action": "override", "header": "location", "value": "/l", "id": "ull", "target_hash": null}]}), vec![ex("/l", true, &["ull"]), ex("/l", true, &["ull", "ru-ll"])]),
+            rule("ll", 16, "/l", None, Some(307), json!({"header_filters": [{"action": "add", "header": "LOCATION", "value": "/a", "id": "ull", "target_hash": null}]}), vec![ex("/l", true, &["ull"]), ex("/l", true, &["ull", "ru-ll"])]),
+        ],
         vec![
             rule("ab2", 12, "/x", Some("https://other.org/y"), Some(301), json!({}), vec![ex("/x", true, &["ru-ab2"])]),
             rule("ab2", 12, "/x", Some(&format!("https://{HOST}/a")), Some(302), json!({"stop": true}), vec![ex("/x", true, &["ru-ab2"])]),
@@ -363,9 +373,9 @@ fn live_applied_ids(router: &Router<Rule>, example: &Example) -> Option<(BTreeSe
 }
 
 /// Independent verdict on the examples of the final rule list: an example that must match fails when the live pipeline does
-/// not apply its rule, an example that must not match fails when it does. (Failures for other reasons - unit ids, redirect
-/// loops - are not asserted here.)
-fn check_example_verdicts(final_rules: &[Value], router: &Router<Rule>, output: &Value, out: &mut Vec<(String, String)>, ctx: &str) {
+/// not apply its rule, an example that must not match fails when it does. (Failures for unit ids are not asserted here; an example
+/// whose rule verdict is fine must be listed when the independent follower finds a loop / too many hops.)
+fn check_example_verdicts(final_rules: &[Value], router: &Router<Rule>, output: &Value, out: &mut Vec<(String, String)>, ctx: &str, max_hops: u8, domains: &[String]) {
     let mut expected_count = 0u64;
     for r in final_rules {
         let id = r["id"].as_str().unwrap_or("");
@@ -390,6 +400,17 @@ fn check_example_verdicts(final_rules: &[Value], router: &Router<Rule>, output: 
                     format!("test-examples:verdict-differs-from-live-pipeline:must_match={}:not-reported-as-failed", e.must_match),
                     format!("rule {id} example {exv}: the live pipeline applies rules {applied:?}, so the example fails, but it is not listed in first_ten_failures; {ctx}"),
                 ));
+            }
+            // an example whose rule verdict is fine still fails when its redirect chain (followed on the live pipeline, with the
+            // example's backend status) loops or exceeds the hop limit
+            if !must_fail && !listed {
+                let (hops, error) = follow(router, &e, max_hops, domains);
+                if matches!(error, Some("Loop") | Some("TooManyHops")) {
+                    out.push((
+                        format!("test-examples:verdict-differs-from-live-pipeline:redirect-chain-{}-not-reported", error.unwrap_or("")),
+                        format!("rule {id} example {exv}: following the live pipeline gives hops {hops:?} ({error:?}) within max_hops={max_hops}, but the example is not listed as failed; {ctx}"),
+                    ));
+                }
             }
             let redirects = [301u16, 302, 307, 308].contains(&final_code);
             if !must_fail && listed && !e.must_match && !redirects {
@@ -524,7 +545,7 @@ pub fn check_case(case: &Case) -> Vec<(String, String)> {
     if let (Ok(p), Ok(s)) = (&te_project, &te_standalone(&b.final_rules)) {
         compare("test-examples", p.clone(), s.clone(), &mut out);
         if b.final_rules.len() <= 4 {
-            check_example_verdicts(&b.final_rules, &router_of(&b.final_rules), s, &mut out, &ctx);
+            check_example_verdicts(&b.final_rules, &router_of(&b.final_rules), s, &mut out, &ctx, case.max_hops, &b.domains);
         }
         // loops inside failures
         if let Some(f) = s["first_ten_failures"].as_object() {
@@ -699,7 +720,7 @@ pub fn cases(tier: Tier) -> Vec<Case> {
         }
     }
     let mut out = Vec::new();
-    let urls = ["/a", "/b", "/c", "/s", "/x", "/p/x", "/zzz", "http://[::1", "/n", "https://example.org/n", "/Shop/x", "/shop/x", "https://example.org/a", "http://example.org/b"];
+    let urls = ["/a", "/b", "/c", "/s", "/x", "/k", "/l", "/p/x", "/zzz", "http://[::1", "/n", "https://example.org/n", "/Shop/x", "/shop/x", "https://example.org/a", "http://example.org/b"];
     let dc = alphabet().iter().position(|v| v[0]["id"] == "dc").unwrap();
     for (bi, base) in bases.iter().enumerate() {
         let absent: Vec<usize> = (0..n).filter(|i| !base.contains(i)).collect();
